@@ -6,6 +6,7 @@ package main
 
 import (
 	"fmt"
+	"strconv"
 	"strings"
 )
 
@@ -74,18 +75,18 @@ func contentDiffs(exp, act *node, loc []string, out *[]*contentDiffInfo) {
 // orderDiff finds the first object whose common keys come in another order
 // in the output (keys present on one side only are content differences and
 // are left out here, so the two checks are independent).
-func orderDiff(exp, act *node, loc []string) []string {
+func orderDiff(exp, act *node, loc []string) ([]string, bool) {
 	if exp.kind != act.kind {
-		return nil
+		return nil, false
 	}
 	switch exp.kind {
 	case kArr:
 		if len(exp.vals) != len(act.vals) {
-			return nil
+			return nil, false
 		}
 		for i := range exp.vals {
-			if l := orderDiff(exp.vals[i], act.vals[i], append(loc, fmt.Sprintf("#%d", i))); l != nil {
-				return l
+			if l, ok := orderDiff(exp.vals[i], act.vals[i], append(loc, fmt.Sprintf("#%d", i))); ok {
+				return l, true
 			}
 		}
 	case kObj:
@@ -103,19 +104,19 @@ func orderDiff(exp, act *node, loc []string) []string {
 		if len(e) == len(a) { // no duplicate keys involved
 			for i := range e {
 				if e[i] != a[i] {
-					return clonePath(loc)
+					return clonePath(loc), true
 				}
 			}
 		}
 		for i, k := range exp.keys {
 			if j := act.indexOf(k); j >= 0 {
-				if l := orderDiff(exp.vals[i], act.vals[j], append(loc, k)); l != nil {
-					return l
+				if l, ok := orderDiff(exp.vals[i], act.vals[j], append(loc, k)); ok {
+					return l, true
 				}
 			}
 		}
 	}
-	return nil
+	return nil, false
 }
 
 // at navigates a tree by a location (keys, "#i" for array elements).
@@ -171,31 +172,41 @@ func relation(loc []string, paths [][]string) string {
 // array index (loc[i] == "#n" where the path has "n"), or is the array itself
 // with such a path continuing into it.
 func viaArrayIndex(input *node, loc []string, paths [][]string) bool {
-	form := make([]string, len(loc))
-	isIdx := make([]bool, len(loc))
+	idx := make([]int, len(loc)) // array index at this position, or -1 for an object key
 	for i, k := range loc {
-		if strings.HasPrefix(k, "#") && at(input, loc[:i]) != nil && at(input, loc[:i]).kind == kArr {
-			form[i], isIdx[i] = k[1:], true
-		} else {
-			form[i] = k
+		idx[i] = -1
+		if strings.HasPrefix(k, "#") {
+			if a := at(input, loc[:i]); a != nil && a.kind == kArr {
+				idx[i], _ = strconv.Atoi(k[1:])
+			}
 		}
 	}
+	// matches reports whether p[:n] walks loc[:n], reading integer-looking
+	// components as indexes where loc has an array position
+	matches := func(p []string, n int) bool {
+		if len(p) < n {
+			return false
+		}
+		for i := 0; i < n; i++ {
+			if idx[i] >= 0 {
+				if v, err := strconv.Atoi(p[i]); err != nil || v != idx[i] {
+					return false
+				}
+			} else if p[i] != loc[i] {
+				return false
+			}
+		}
+		return true
+	}
 	for _, p := range paths {
-		for i := range form {
-			if isIdx[i] && len(p) > i && pathHasPrefix(form[:i+1], p[:i+1]) && pathHasPrefix(p, form[:i+1]) {
+		for i := range loc {
+			if idx[i] >= 0 && matches(p, i+1) {
 				return true
 			}
 		}
-		if n := at(input, loc); n != nil && n.kind == kArr && len(p) > len(form) && pathHasPrefix(p, form) && isDecimal(p[len(form)]) {
-			// the array itself changed and a path continues into it with a numeric component
-			ok := true
-			for i := range form {
-				if isIdx[i] && !isDecimal(p[i]) {
-					ok = false
-				}
-			}
-			if ok {
-				return true
+		if n := at(input, loc); n != nil && n.kind == kArr && len(p) > len(loc) && matches(p, len(loc)) {
+			if _, err := strconv.Atoi(p[len(loc)]); err == nil {
+				return true // the array itself changed and a path continues into it with an integer component
 			}
 		}
 	}
@@ -258,13 +269,13 @@ func judge(plugin string, paths [][]string, input, expected *node, output string
 		}
 		add("plugin="+plugin+" diff="+d.kind+" where="+relation(d.loc, paths), what)
 	}
-	if loc := orderDiff(expected, act, nil); loc != nil {
+	if loc, found := orderDiff(expected, act, nil); found {
 		in := at(input, loc)
 		ex := at(expected, loc)
 		ac := at(act, loc)
 		where := "object-with-deletions"
-		if in != nil && ex != nil && len(in.keys) == len(ex.keys) {
-			where = "untouched-object"
+		if in != nil && ac != nil && len(in.keys) == len(ac.keys) {
+			where = "untouched-object" // nothing was deleted from this object, rightly or wrongly
 		}
 		add("plugin="+plugin+" diff=survivor-key-order in="+where,
 			fmt.Sprintf("survivors of the object at %s are re-ordered: expected key order %q, got %q", showLoc(loc), trimKeys(ex), trimKeys(ac)))
